@@ -7,8 +7,8 @@
 package seqx
 
 import (
-	"fmt"
 	"encoding/json"
+	"fmt"
 
 	"verif/engine"
 )
